@@ -84,5 +84,8 @@ def gen(tier, rng):
     for c in ((1, 2, 3) if thorough else (3,)):
         yield nodegen.forge_script(rng.fork("forge%d" % c), "node-forged-seals-%d" % c, c)
     yield nodegen.forge_script(rng.fork("forge-rot"), "node-forged-seals-rotated", 1, after_rotation=True)
+    # a node trusts its own key by default: its own handshake datagrams mirrored back to it from other addresses prove nothing
+    for m in (False, True):
+        yield nodegen.self_dial_script(rng.fork("self%d" % m), "node-self-dial-%d" % m, m)
 
 obs_class, nontrivial_key = _nodecommon.with_node(obs_class, nontrivial_key)
